@@ -28,6 +28,9 @@ import (
 type scen struct {
 	Tree  fx.Scenario `json:"tree"`
 	Order []int       `json:"order"`
+	// Produce: the node builds the blocks itself (real block-production path) and connects them
+	// through the commit-only path of addBlock, instead of receiving them from the network
+	Produce bool `json:"produce,omitempty"`
 }
 
 type crashPoint struct {
@@ -82,11 +85,48 @@ func scenarios(tier string) []scen {
 			k := fmt.Sprint(o)
 			if !seen[k] {
 				seen[k] = true
-				out = append(out, scen{sc, o})
+				out = append(out, scen{Tree: sc, Order: o})
 			}
 		}
 	}
+	// the node as block producer (linear chains), and contract-storage blocks received from the network
+	for _, l := range []int{2, 3} {
+		var par, ord []int
+		for i := 0; i < l; i++ {
+			par = append(par, i)
+			ord = append(ord, i+1)
+		}
+		for _, fl := range []string{"tx", "ctr"} {
+			out = append(out, scen{Tree: fx.Scenario{Parents: par, Flavour: fl}, Order: ord, Produce: true})
+		}
+		out = append(out, scen{Tree: fx.Scenario{Parents: par, Flavour: "ctr"}, Order: ord})
+	}
+	out = append(out, scen{Tree: fx.Scenario{Parents: []int{0, 0, 2}, Flavour: "ctr"}, Order: []int{1, 2, 3}})
 	return out
+}
+
+// feed hands block i to the node: from the network, or produced by the node itself.
+func feed(n *nk.Node, t *fx.Tree, sc scen, i int) {
+	if !sc.Produce {
+		_ = n.Deliver(t.Blocks[i].Block)
+		return
+	}
+	b := t.Blocks[i]
+	best := n.Best()
+	if best.ID() != t.Blocks[b.Parent].Block.ID() {
+		// not the next block of the chain (re-delivery after recovery when nothing was lost, or
+		// recovery ended on an earlier block): hand the finished block over as a network block
+		_ = n.Deliver(b.Block)
+		return
+	}
+	built, err := n.Produce(best, b.Block.GetBody().GetTxs(), b.Idx%n.Net.NBP, b.Idx, 1)
+	if err != nil {
+		panic(fmt.Sprintf("produce block %d: %v", i, err))
+	}
+	if built.Block.ID() != b.Block.ID() {
+		panic(fmt.Sprintf("harness: block %d produced on the node differs from the builder's block", i))
+	}
+	_ = n.ConnectProduced(built)
 }
 
 type golden struct {
@@ -118,7 +158,7 @@ func record(net nk.Net, sc scen) (*golden, error) {
 	g.bests = append(g.bests, n.Best().ID())
 	db.VerifJournalStart()
 	for _, i := range sc.Order {
-		_ = n.Deliver(t.Blocks[i].Block)
+		feed(n, t, sc, i)
 		g.bounds = append(g.bounds, db.VerifJournalLen())
 		g.bests = append(g.bests, n.Best().ID())
 	}
@@ -128,7 +168,7 @@ func record(net nk.Net, sc scen) (*golden, error) {
 	// later in the order and orphans that were dropped because their slot was taken)
 	for r := 0; r < 2; r++ {
 		for _, i := range sc.Order {
-			_ = n.Deliver(t.Blocks[i].Block)
+			feed(n, t, sc, i)
 		}
 	}
 	g.final = n.Best().ID()
@@ -241,10 +281,10 @@ func crashOnce(ctx *xplor.Ctx, net nk.Net, sc scen, g *golden, st *nk.Stores, cp
 	}
 	// feeding the same blocks again gives the uncrashed final state
 	for _, i := range sc.Order {
-		_ = n.Deliver(g.t.Blocks[i].Block)
+		feed(n, g.t, sc, i)
 	}
 	for _, i := range sc.Order { // a second round connects blocks whose parents arrived later in the order
-		_ = n.Deliver(g.t.Blocks[i].Block)
+		feed(n, g.t, sc, i)
 	}
 	if m := fx.CheckDB(g.t, n, post); m != "" {
 		return "after recovery and re-delivery: " + m, rec
